@@ -320,6 +320,15 @@ def all_obligations():
          what='transmit(): for every first code length 1..20 and padding 0..3 the 5-bit start value of the first table stays within 1..20 and lies exactly tree_pad steps from the real length',
          functions=['transmit (first-length section)'], flags=['--unwind', '8', '--unwinding-assertions'], expect=['first table: the 5-bit start value stays within'], assumed=XS, replayable=True))
 
+    # ---------------- decode.c decode(): inverse BWT (C06 O6.4, C01 O1.2 decoder side)
+    for n, tier in ((3, 'quick'), (4, 'thorough')):
+        A(Ob(name=f'decode.ibwt.n{n}', props=['C06', 'C01', 'C05', 'C08'], kind='bounded', tier=tier, harness='h_emit.c', entry='h_decode_ibwt', extra_srcs=['src/crctab.c'], solver='cadical',
+             defines={'IBWT_N': str(n)}, bound=f'texts of 1..{n} bytes over 3 values, all symbolic; both the ordinary and the in-situ (randomised-block) path; no derandomisation toggle falls inside {n} bytes',
+             what='decode(): given the Burrows-Wheeler transform of a text (computed naively by sorting rotations) the linked list it builds, walked the way emit() walks it from the primary index, '
+                  'yields the text; pointers stay inside the block; the run-length decoder state is reset',
+             functions=['decode'], flags=['--unwind', '8', '--unwindset', 'decode.0:258,h_decode_ibwt.4:258', '--unwinding-assertions'], timeout=1200,
+             expect=['decode\\(\\): walking the list from the primary index', 'decode\\(\\): list pointers stay inside'], replayable=True, replay_src='decode.c'))
+
     # ---------------- encode.c do_mtf(): MTF + zero-run coder against the inverse of the format (C01 O1.3)
     for n, a, tier in ((5, 3, 'quick'), (6, 4, 'thorough'), (7, 3, 'thorough')):
         A(Ob(name=f'encode.do_mtf.n{n}a{a}', props=['C01', 'C02', 'C08'], kind='bounded', tier=tier, harness='h_do_mtf.c', entry='h_do_mtf', extra_srcs=['src/crctab.c'], solver='cadical',
